@@ -321,20 +321,43 @@ def fastgate_rule(ctx, r):
                        and any(y.k == "const" and y[1] == 0 for y in (e[2], e[3])), eb)
     B = cond_switches(f, lambda e: is_call(e, "grep_matcher::ByteSet::contains") and
                       mentions_call(e, MATCHER + "::non_matching_bytes") and mentions_field(e, SCFG, "line_term"), eb)
-    if len(trues) < 2 or not A1 or not A2 or not B:
+    # value table (32 rows): the matcher's terminator (none / some), whether it is NUL, whether it equals the searcher's,
+    # whether the matcher promises non-matching bytes and whether the searcher's terminator is among them. The fast path may
+    # be admitted only under (terminator known ∧ not NUL ∧ (equal ∨ promised)) ∨ (terminator unknown ∧ promised).
+    from ..flow import table as _tbl, ret_set as _rs
+    LT_ = MATCHER + "::line_terminator"
+    called = {c.path for c in f.calls()} | {c.func.get("name") for c in f.calls()}
+    if not ({"line_terminator", "non_matching_bytes"} <= called) or not any(c.path.endswith("ByteSet::contains") for c in f.calls()):
         r.bad("shape", "anchor-missing: is_line_by_line_fast: %d true returns, terminator-eq tests %d, NUL tests %d, "
               "non-matching tests %d" % (len(trues), len(A1), len(A2), len(B)), fn=f)
     else:
-        for i, t in enumerate(sorted(trues)):
-            a = not guarded(f, [t], A1, True) and not guarded(f, [t], A2, False)
-            b = not guarded(f, [t], B, True)
-            if a or b:
-                r.ok("true|%d" % i, "fast path admitted only under %s" % (
-                    "matcher terminator == searcher terminator ∧ terminator ≠ NUL" if a else
-                    "terminator byte ∈ non_matching_bytes"), fn=f)
+        wrong, admitted = [], 0
+        for row, sx in _tbl(facts, f, fields={(SCFG, "passthru"): [I(0)], (SCFG, "stop_on_nonmatch"): [I(0)]},
+                            calls={"Matcher::line_terminator": [V("None", None), V("Some", None)], "LineTerminator::as_byte": [I(0), I(10)],
+                                   "PartialEq::eq": [I(0), I(1)], "Matcher::non_matching_bytes": [V("None", None), V("Some", None)],
+                                   "ByteSet::contains": [I(0), I(1)]}):
+            lt = row[("call", "Matcher::line_terminator")][1] == "Some"
+            asb, eq_ = row[("call", "LineTerminator::as_byte")][1], row[("call", "PartialEq::eq")][1]
+            nm = row[("call", "Matcher::non_matching_bytes")][1] == "Some"
+            cont = row[("call", "ByteSet::contains")][1]
+            may = ((asb != 0) and (eq_ or (nm and cont))) if lt else bool(nm and cont)
+            got = _rs(sx)
+            if I(1) in got or None in got:
+                admitted += 1
+                if not may:
+                    wrong.append("terminator %s%s, equal=%d, promise %s, contains=%d" % ("known" if lt else "unknown", " (NUL)" if lt and asb == 0 else "",
+                                                                                      eq_, "given" if nm else "none", cont))
+        for i in range(2):
+            # (two instances as on the reference tree: the equality route and the promise route)
+            if wrong:
+                r.bad("true|%d" % i, "is_line_by_line_fast can answer true although the matcher may match the line terminator (%s)" % wrong[0],
+                      fn=f, construct="fastgate")
+            elif not admitted:
+                r.bad("true|%d" % i, "anchor-missing: is_line_by_line_fast never admits the fast path", fn=f)
             else:
-                r.bad("true|%d" % i, "is_line_by_line_fast can answer true at %s although the matcher may match the line "
-                      "terminator" % f.blocks[t]["term"]["loc"], fn=f, loc=f.blocks[t]["term"]["loc"], construct="fastgate")
+                r.ok("true|%d" % i, "fast path admitted only under %s" % (
+                    "matcher terminator == searcher terminator ∧ terminator ≠ NUL" if i == 0 else
+                    "terminator byte ∈ non_matching_bytes"), fn=f)
     P = cond_switches(f, lambda e: W.field_of(e, SCFG, "passthru"), eb)
     if P:
         s = Sccp(f).run([(P[0][1][1], {})])
